@@ -98,7 +98,10 @@ AllGraphs == {Mk("C09/graph/m" \o GName(lm) \o "-a" \o GName(la) \o "-b" \o GNam
 \* removal of unused functions: a function whose ONLY use sits at one particular site (every statement and expression position), in the main file or in
 \* an imported file that is itself only reached through main; a removed function shows as "command not found"
 Sites == {"print", "define", "assign", "ifcond", "ifbody", "elsebody", "forcond", "forbody", "forpost", "rangeopnd", "switchtag", "caseexpr", "casebody", "arg", "nestedarg", "return",
-          "operand", "notoperand", "index", "element", "setidxval", "lenarg", "itoaarg", "writedata", "funcbody", "funcinloop", "globalinit", "multidef", "stmtcall", "groupcall"}
+          "operand", "notoperand", "index", "element", "setidxval", "lenarg", "itoaarg", "writedata", "funcbody", "funcinloop", "globalinit", "multidef", "stmtcall", "groupcall",
+          \* round 14: the argument of panic is evaluated although the statement ends the run; more positions that only exceptional or rarely written code reaches
+          "panicarg", "panicargnested", "elseifcond", "forinit", "compound", "logicopnd", "substrlo", "substrhi", "setidxidx", "multiassign", "vardef", "ret2nd", "existsarg", "cmpopnd",
+          "afterreturn", "panicinfunc", "breakguard"}
 OnlyDef == <<Func("Only", <<Param("n", "int")>>, <<"int">>, <<PrintS(<<StrL("only"), Var("n")>>), RetS(<<Bin("+", Var("n"), I(7))>>)>>),
              Func("OnlyS", <<>>, <<"[]int">>, <<PrintS(<<StrL("onlys")>>), RetS(<<SliceLit("int", <<I(4), I(5)>>)>>)>>),
              Func("OnlyB", <<>>, <<"bool">>, <<PrintS(<<StrL("onlyb")>>), RetS(<<BoolL(TRUE)>>)>>),
@@ -130,11 +133,28 @@ SiteUse(al, st) ==
     [] st = "globalinit" -> <<Def1("g", O(al, I(1))), Func("show", <<>>, <<>>, <<Print1(Var("g"))>>), ExprS(CallE("show", <<>>))>>
     [] st = "multidef" -> <<Def(<<"v", "w">>, <<I(1), O(al, I(1))>>), PrintS(<<Var("v"), Var("w")>>)>>
     [] st = "stmtcall" -> <<ExprS(O(al, I(1))), Print1(StrL("after"))>> [] st = "groupcall" -> <<Print1(Grp(O(al, I(1))))>>
+    [] st = "panicarg" -> <<Print1(StrL("before")), PanicS(Bin("+", StrL("bad "), Itoa(O(al, I(3)))))>>
+    [] st = "panicargnested" -> <<Def1("v", I(2)), For3(Def1("i", I(0)), CmpE("<", Var("i"), I(5)), Inc("i"), <<If1(CmpE("==", Var("i"), Var("v")), <<PanicS(Itoa(O(al, Var("i"))))>>), Print1(Var("i"))>>)>>
+    [] st = "elseifcond" -> <<If(<<Branch(BoolL(FALSE), <<Print1(StrL("a"))>>), Branch(CmpE(">", O(al, I(1)), I(0)), <<Print1(StrL("b"))>>)>>, <<Print1(StrL("c"))>>)>>
+    [] st = "forinit" -> <<For3(Def1("i", O(al, I(1))), CmpE("<", Var("i"), I(10)), Inc("i"), <<Print1(Var("i"))>>)>>
+    [] st = "compound" -> <<Def1("v", I(1)), Compound("v", "*", O(al, I(1))), Print1(Var("v"))>>
+    [] st = "logicopnd" -> <<Print1(Lgc("&&", BoolL(FALSE), ACall(al, "OnlyB", <<>>)))>>
+    [] st = "substrlo" -> <<Def1("s", StrL("abcdefghijkl")), Print1(Substr(Var("s"), Bin("-", O(al, I(1)), I(6)), NoneN))>>
+    [] st = "substrhi" -> <<Def1("s", StrL("abcdefghijkl")), Print1(Substr(Var("s"), I(1), O(al, I(1))))>>
+    [] st = "setidxidx" -> <<Def1("sl", SliceLit("int", [k \in 1..9 |-> I(k)])), SetIdx("sl", O(al, I(1)), I(0)), Print1(IndexE(Var("sl"), I(8)))>>
+    [] st = "multiassign" -> <<Def(<<"v", "w">>, <<I(1), I(2)>>), Asg(<<"v", "w">>, <<Var("w"), O(al, Var("v"))>>), PrintS(<<Var("v"), Var("w")>>)>>
+    [] st = "vardef" -> <<VarDef(<<"v">>, "int", <<O(al, I(1))>>), Print1(Var("v"))>>
+    [] st = "ret2nd" -> <<Func("wrap", <<>>, <<"int", "int">>, <<RetS(<<I(1), O(al, I(1))>>)>>), Def(<<"v", "w">>, <<CallE("wrap", <<>>)>>), PrintS(<<Var("v"), Var("w")>>)>>
+    [] st = "existsarg" -> <<Print1(ExistsE(Bin("+", StrL("nofile"), Itoa(O(al, I(1))))))>>
+    [] st = "cmpopnd" -> <<Print1(CmpE("==", I(8), O(al, I(1))))>>
+    [] st = "afterreturn" -> <<Func("wrap", <<Param("n", "int")>>, <<"int">>, <<If1(CmpE(">", Var("n"), I(0)), <<RetS(<<I(0)>>)>>), RetS(<<O(al, Var("n"))>>)>>), PrintS(<<CallE("wrap", <<I(1)>>), CallE("wrap", <<I(0)>>)>>)>>
+    [] st = "panicinfunc" -> <<Func("check", <<Param("n", "int")>>, <<"int">>, <<If1(CmpE(">", Var("n"), I(1)), <<PanicS(Bin("+", StrL("code "), Itoa(O(al, Var("n")))))>>), RetS(<<Var("n")>>)>>), PrintS(<<CallE("check", <<I(1)>>)>>), PrintS(<<CallE("check", <<I(2)>>)>>)>>
+    [] st = "breakguard" -> <<For3(Def1("i", I(0)), CmpE("<", Var("i"), I(5)), Inc("i"), <<If1(CmpE(">", Var("i"), I(1)), <<BreakS>>), Print1(Var("i"))>>), Print1(O(al, I(1)))>>
 \* in an imported file the alias is "x"; its public function runs the site
 SiteCases == {Mk("C09/site/main/" \o st, h, <<F("main.tsh", <<Imp("a", "a.tsh")>>, SiteUse("a", st) \o <<Print1(StrL("end"))>>, h), F("a.tsh", <<>>, OnlyDef, h)>>) : st \in Sites, h \in {"letter"}}
              \cup {Mk("C09/site/imported/" \o st, h, <<F("main.tsh", <<Imp("b", "b.tsh")>>, <<ExprS(ACall("b", "Run", <<>>)), Print1(StrL("end"))>>, h),
                                                         F("b.tsh", <<Imp("x", "a.tsh")>>, <<Func("Run", <<>>, <<>>, SiteUse("x", st))>>, h), F("a.tsh", <<>>, OnlyDef, h)>>)
-                    : st \in Sites \ {"arg", "return", "funcbody", "funcinloop", "globalinit"}, h \in {"digit"}}
+                    : st \in Sites \ {"arg", "return", "funcbody", "funcinloop", "globalinit", "ret2nd", "afterreturn", "panicinfunc"}, h \in {"digit"}}
              \cup {Mk("C09/site/importedtop/" \o st, h, <<F("main.tsh", <<Imp("b", "b.tsh")>>, <<Print1(StrL("end"))>>, h),
                                                            F("b.tsh", <<Imp("x", "a.tsh")>>, SiteUse("x", st), h), F("a.tsh", <<>>, OnlyDef, h)>>)
                     : st \in Sites, h \in {"letter"}}
@@ -244,6 +264,15 @@ ShadowStd ==
          F("strings.tsh", <<>>, OwnStr, "letter")>>,
        <<F("main.tsh", <<Imp("m", "strings.tsh")>>, <<PrintS(<<StrL(GS!Repeat("ab", 2)), ACall("m", "Twice", <<StrL("cd")>>), BoolL(GS!Contains("abc", "b")), ACall("m", "Contains", <<StrL("a"), StrL("b")>>)>>)>>, "letter"),
          F("strings.tsh", <<>>, OwnStr, "letter")>>)}
-Neg == NegH("digit") \cup LibNeg \cup AliasNeg
+\* which names of an imported file are public: exactly those whose first character is an upper-case letter (round 14: "the first character equals its
+\* upper-case form" made every name that starts with an underscore public)
+ShapeNames == <<"_helper", "_Helper", "__x", "_", "_9", "h", "hX", "x_Y", "aB", "z9", "H", "Hx", "H_", "Z9", "HELPER", "Xy_z">>
+NameShape == {Mk("C09/nameshape/" \o ShapeNames[i] \o "/" \o w, "letter",
+                 <<F("main.tsh", <<Imp("a", "a.tsh")>>, <<PrintS(<<StrL("got"), ACall("a", ShapeNames[i], <<>>)>>), Print1(ACall("a", "Pub", <<I(1)>>))>>, "letter"),
+                   F("a.tsh", <<>>, <<Func(ShapeNames[i], <<>>, <<"int">>, <<RetS(<<I(41)>>)>>)>>
+                                    \o (IF w = "used" THEN <<Func("Pub", <<Param("n", "int")>>, <<"int">>, <<RetS(<<Bin("+", Var("n"), CallE(ShapeNames[i], <<>>))>>)>>)>>
+                                                     ELSE <<Func("Pub", <<Param("n", "int")>>, <<"int">>, <<RetS(<<Var("n")>>)>>)>>), "letter")>>)
+              : i \in 1..Len(ShapeNames), w \in {"used", "unused"}}
+Neg == NegH("digit") \cup LibNeg \cup AliasNeg \cup NameShape
 ASSUME ndJsonSerialize("fam.ndjson", SetToSeq(S1 \cup S2 \cup S3 \cup S4 \cup S4b \cup S5 \cup S6 \cup S7 \cup S8 \cup AllGraphs \cup SiteCases \cup ChainDepth \cup AsymCases \cup ShadowStd \cup Neg))
 =============================================================================
